@@ -79,6 +79,11 @@ func c12(p *Prog, r *Report) {
 			if len(table) != 4 {
 				probs = append(probs, fmt.Sprintf("%d curves supported, expected 4", len(table)))
 			}
+			if he, ok := hashArg.(*ssa.Extract); ok {
+				if c, ok := he.Tuple.(*ssa.Call); ok && !s.factsHaveCallSuccess(exp[0].Block(), c) {
+					probs = append(probs, "the selected parameters are used without the selector having accepted the curve")
+				}
+			}
 			r.Check(len(probs) == 0, R1, "curve -> (hash, L) table", p.Pos(hb.Pos()), strings.Join(rows, " "), strings.Join(probs, "; ")+" ["+strings.Join(rows, " ")+"]")
 			// unknown curves rejected: some failing return exists whose facts are all name != const
 			rej := false
@@ -153,12 +158,28 @@ func c12(p *Prog, r *Report) {
 		p.RequireOnSuccess(r, R2, fn, CallReq{Desc: "hashBlind(skS.Curve, skB, context) ok", Callee: "ecdsa.hashBlind", Check: func(t *Term) string { return want("derivation", t, "call<ecdsa.hashBlind>("+c+", param:2, param:4)") }})
 		N := "call<(crypto/elliptic.Curve).Params>(" + c + ").N"
 		db := "obj(call<(*math/big.Int).Mul>(*, param:1.D, " + k + "), call<(*math/big.Int).Mod>(const:self, const:self, " + N + "))"
+		// the blinded public key: BlindPublicKeyWithContext(own public key, skB,
+		// context), or the same point computed in place with the scalar derived above
 		pk := "load(extract<0>(call<ecdsa.BlindPublicKeyWithContext>(" + c + ", fieldaddr<PublicKey>(param:1), param:2, param:4)))"
-		sign := "call<ecdsa.Sign>(param:0, ref(struct<ecdsa.PrivateKey>(kv<D>(" + db + "), kv<PublicKey>(" + pk + "))), param:3)"
-		retValueIs(p, r, R3, fn, "Sign(rand, {Blind(pk), D*k mod N}, hash)", "extract<0>("+sign+")")
-		p.RequireOnSuccess(r, R2, fn, CallReq{Desc: "BlindPublicKeyWithContext(curve, own public key, skB, context) ok", Callee: "ecdsa.BlindPublicKeyWithContext", Check: func(t *Term) string {
-			return want("blinded public key", t, "call<ecdsa.BlindPublicKeyWithContext>("+c+", fieldaddr<PublicKey>(param:1), param:2, param:4)")
-		}})
+		sm := "call<(crypto/elliptic.Curve).ScalarMult>(" + c + ", param:1.PublicKey.X, param:1.PublicKey.Y, call<(*math/big.Int).Bytes>(" + k + "))"
+		inPlace := "struct<ecdsa.PublicKey>(kv<Curve>(" + c + "), kv<X>(extract<0>(" + sm + ")), kv<Y>(extract<1>(" + sm + ")))"
+		mk := func(pk string) string {
+			return "extract<0>(call<ecdsa.Sign>(param:0, ref(struct<ecdsa.PrivateKey>(kv<D>(" + db + "), kv<PublicKey>(" + pk + "))), param:3))"
+		}
+		got := ""
+		if t := p.NewSym(fn).returnTerm(); t != nil && t.Op == "tuple" && len(t.Args) > 0 {
+			got = t.Args[0].String()
+		}
+		switch {
+		case glob(mk(inPlace), got) || glob(mk("load(ref("+inPlace+"))"), got):
+			r.OK(R3, shortName(fn)+" returns Sign(rand, {Blind(pk), D*k mod N}, hash)", p.Pos(fn.Pos()), "blinded public key computed in place: ScalarMult(own public key, k) with the k that scales D")
+			r.OK(R2, shortName(fn)+" => blinded public key from the same derivation", p.Pos(fn.Pos()), "single hashBlind(skS.Curve, skB, context)")
+		default:
+			retValueIs(p, r, R3, fn, "Sign(rand, {Blind(pk), D*k mod N}, hash)", mk(pk))
+			p.RequireOnSuccess(r, R2, fn, CallReq{Desc: "BlindPublicKeyWithContext(curve, own public key, skB, context) ok", Callee: "ecdsa.BlindPublicKeyWithContext", Check: func(t *Term) string {
+				return want("blinded public key", t, "call<ecdsa.BlindPublicKeyWithContext>("+c+", fieldaddr<PublicKey>(param:1), param:2, param:4)")
+			}})
+		}
 	}
 	for _, w := range []struct{ name, callee, pat string }{
 		{"~/ecdsa.BlindPublicKey", "ecdsa.BlindPublicKeyWithContext", "call<ecdsa.BlindPublicKeyWithContext>(param:0, param:1, param:2, const:nil)"},
@@ -176,6 +197,44 @@ func c12(p *Prog, r *Report) {
 // name == <const>.
 func curveTable(s *Sym, hashV, lV ssa.Value) map[string][2]int64 {
 	out := map[string][2]int64{}
+	// the table moved into a selector function: (hash, L, ok) := f(name)
+	if he, ok := hashV.(*ssa.Extract); ok {
+		if le, ok := lV.(*ssa.Extract); ok && le.Tuple == he.Tuple {
+			if c, ok := he.Tuple.(*ssa.Call); ok {
+				if f := c.Call.StaticCallee(); f != nil && InModule(f) && f.Blocks != nil {
+					ch := s.child(f)
+					s.bindArgs(ch, f, c.Call.Args, c)
+					for _, rp := range ch.ff.RetPoints(verdictIndex(f)) {
+						if rp.Outcome == Fails || he.Index >= len(rp.Vals) || le.Index >= len(rp.Vals) {
+							continue
+						}
+						hc, ok1 := rp.Vals[he.Index].(*ssa.Const)
+						lc, ok2 := rp.Vals[le.Index].(*ssa.Const)
+						if !ok1 || !ok2 || hc.Value == nil || lc.Value == nil {
+							out["<non-constant entry>"] = [2]int64{-1, -1}
+							continue
+						}
+						for _, a := range rp.Facts {
+							if a.Kind != Truth || !a.Pol {
+								continue
+							}
+							bo, ok := a.V.(*ssa.BinOp)
+							if !ok || bo.Op != token.EQL {
+								continue
+							}
+							k, ok := bo.Y.(*ssa.Const)
+							if !ok || k.Value == nil || k.Value.Kind() != constant.String {
+								continue
+							}
+							out[k.Value.ExactString()] = [2]int64{hc.Int64(), lc.Int64()}
+							break
+						}
+					}
+					return out
+				}
+			}
+		}
+	}
 	hp, ok1 := hashV.(*ssa.Phi)
 	lp, ok2 := lV.(*ssa.Phi)
 	if !ok1 || !ok2 || hp.Block() != lp.Block() {
